@@ -291,3 +291,13 @@ func vhCheckRead(f *FSM, r *vhRef, maxK int, which int) {
 		vhCheckIndex(f, r)
 	}
 }
+
+// VHNewFSM: an opened table state machine over an empty database, for
+// harnesses in other packages (engine: Pebble model; native: real Pebble in memory).
+func VHNewFSM(applied func(uint64)) *FSM { return vhFSM(vhOpenDB(), applied) }
+
+// VHLoadState loads an arbitrary content (see vhArbitraryStateSys) and returns its keys and values.
+func VHLoadState(f *FSM, maxN, maxK, maxV int) (keys, vals [][]byte) {
+	r := vhArbitraryStateSys(f.pebble.Load(), maxN, maxK, maxV, true)
+	return r.keys, r.vals
+}
